@@ -759,6 +759,9 @@ def reach_from(fn, start_blocks, stop=frozenset()):
     return seen
 
 
+UNCHECKED_AS_CHECKED = False
+
+
 def canon(e, depth=0):
     """canonical compact rendering of a value expression with views/copies peeled everywhere
     (refs, derefs, clones, to_owned, deref calls ...), for structural comparison in rules"""
@@ -784,6 +787,10 @@ def canon(e, depth=0):
     if k == "phi":
         return "phi[%s]" % " | ".join(sorted(set(canon(x, d) for x in e.a[0])))
     if k == "bin":
+        if UNCHECKED_AS_CHECKED and e.a[0] in ("Add", "Sub", "Mul"):
+            # release-shape MIR (overflow checks off) has `x = Add(a, b)` where the checked shape has
+            # `t = AddWithOverflow(a, b); assert(!t.1); x = t.0`: render both alike so that the value rules match
+            return "(%s %sWithOverflow %s).0" % (canon(e.a[1], d), e.a[0], canon(e.a[2], d))
         return "(%s %s %s)" % (canon(e.a[1], d), e.a[0], canon(e.a[2], d))
     if k == "un":
         return "%s(%s)" % (e.a[0], canon(e.a[1], d))
